@@ -555,6 +555,17 @@ def delta_sequences(bits):
             sq.append(wrap(v))
             v += big + k if k % 2 == 0 else -7 - k
         seqs.append(("deltas spanning about 2^%d" % sp, sq))
+    # constant mini-blocks on both sides of a block boundary, with different min deltas (state carried from block to block)
+    sq = [wrap(5 + k) for k in range(129)]
+    for k in range(140):
+        sq.append(wrap(sq[-1] + 3))
+    seqs.append(("step 1 for one block, then step 3 (constant mini-blocks on both sides of the block boundary)", sq))
+    sq = [wrap(-9)]
+    for k in range(128):
+        sq.append(wrap(sq[-1] + (k % 3 if k < 96 else 7)))       # last mini-block of block 1: width 0 with min delta 7 ... 
+    for k in range(40):
+        sq.append(wrap(sq[-1] - 2))                               # ... first mini-block of block 2: width 0 with min delta -2
+    seqs.append(("a packed block ending in a constant mini-block, then a block of another constant step", sq))
     # one narrow and one wide mini-block in the same block, then a partly filled block
     v, sq = -3, []
     for k in range(150):
@@ -926,64 +937,9 @@ def check_delta_length(ctx, rule="R42.delta-length"):
         n += done
     if enc is not None:
         key = "delta-length-encode|%s:carquet_delta_length_encode" % DL
-        what = ("carquet_delta_length_encode appends the DELTA_BINARY_PACKED block of the lengths (in order), then every value's bytes in order, and nothing else")
-        bad = None
-        done = 0
-        try:
-            for lens in _framing_cases():
-                items = []
-                o = 0
-                for l in lens:
-                    items.append((o + 1000 * len(items), l))     # values far apart in memory: only the appended order matters
-                seen = {}
-
-                def ehook(ev, a, it, seen=seen):
-                    cnt = a[1]
-                    vals = [it.heap.get((a[0].base, a[0].off + 4 * i)) for i in range(cnt)] if isinstance(a[0], Ptr) and isinstance(cnt, int) else None
-                    seen["lens"] = vals
-                    seen["buf"] = a[2]
-                    sem.set_out(it, a[4], 11)
-                    return 0
-                app = []
-
-                def ahook(ev, a, it, app=app):
-                    app.append((a[1], a[2]))
-                    return 0
-                ret, ev, heap = sem.run(P, enc, [Ptr("vals", 0, 16), len(lens), Ptr("obuf", 0, 1)], heap0=_ba_heap("vals", items),
-                                        hooks=dict(_alloc_hooks(), carquet_delta_encode_int32=ehook, carquet_buffer_append=ahook), single=True, max_forks=8, budget=400000, inline_depth=4)
-                done += 1
-                lab = "lengths %s" % (lens if len(lens) < 9 else "%d x %d" % (len(lens), lens[0]))
-                if bad is not None:
-                    continue
-                if ret != 0:
-                    bad = "%s: returns %r" % (lab, ret)
-                    continue
-                if seen.get("lens") != lens:
-                    bad = "%s: the lengths handed to the DELTA encoder are %r" % (lab, seen.get("lens"))
-                    continue
-                exp = [("block", 11)] + [(off, l) for off, l in items if l]
-                got = []
-                for p, ln in app:
-                    if ln == 0:
-                        continue
-                    if isinstance(p, Ptr) and p.base == "str":
-                        got.append((p.off, ln))
-                    elif isinstance(p, Ptr) and isinstance(seen.get("buf"), Ptr) and p.base == seen["buf"].base and p.off == seen["buf"].off:
-                        got.append(("block", ln))
-                    else:
-                        got.append(("?", repr(p)[:30], ln))
-                if got != exp:
-                    k = next((i for i, (x, y) in enumerate(zip(got, exp)) if x != y), min(len(got), len(exp)))
-                    bad = "%s: append number %d is %s, the format has %s there" % (lab, k + 1, got[k] if k < len(got) else "missing", exp[k] if k < len(exp) else "nothing more")
-        except (sem.Inconclusive, KeyError) as ex:
-            if bad:
-                ctx.ob(rule, key, P.where(enc.body), what, False, bad)
-            else:
-                ctx.inconclusive(rule, key, P.where(enc.body), what, "%s: %s" % (type(ex).__name__, ex))
-                done = 0
-        else:
-            ctx.ob(rule, key, P.where(enc.body), what + " (%d sequences)" % done, bad is None, bad or "")
-        n += done
+        what = ("what carquet_delta_length_encode appends to a buffer that already holds bytes is, read by the specification, a DELTA_BINARY_PACKED block of the lengths "
+                "followed by every value's bytes in order - and the bytes already there are untouched")
+        n += _encoder_by_spec(ctx, enc, key, what, rule, [[[0x41 + (i + j) % 26 for j in range(l)] for i, l in enumerate(lens)] for lens in _framing_cases()], "length")
     return n
 
 
@@ -1097,82 +1053,96 @@ def check_delta_strings(ctx, rule="R42.delta-strings"):
         n += done
     if enc is not None:
         key = "delta-strings-encode|%s:carquet_delta_strings_encode" % DS
-        what = ("what carquet_delta_strings_encode hands to the DELTA encoder (prefix lengths, then suffix lengths) and appends (the two blocks, then the suffix bytes "
-                "in order), read by the specification, gives the strings back")
-        bad = None
-        done = 0
-        try:
-            for strs in _string_cases():
-                heap0, items, o = {}, [], 0
-                for st in strs:
-                    items.append((o, len(st)))
-                    for j, c in enumerate(st):
-                        heap0[("str", o + j)] = c
-                    o += len(st) + 5
-                heap0.update(_ba_heap("vals", items))
-                seen = []
-
-                def ehook(ev, a, it, seen=seen):
-                    cnt = a[1]
-                    vals = [it.heap.get((a[0].base, a[0].off + 4 * i)) for i in range(cnt)] if isinstance(a[0], Ptr) and isinstance(cnt, int) else None
-                    seen.append((vals, a[2]))
-                    sem.set_out(it, a[4], 11 + 2 * len(seen))
-                    return 0
-                app = []
-
-                def ahook(ev, a, it, app=app, seen=seen):
-                    app.append((a[1], a[2], len(seen)))
-                    return 0
-                ret, ev, heap = sem.run(P, enc, [Ptr("vals", 0, 16), len(strs), Ptr("obuf", 0, 1)], heap0=heap0,
-                                        hooks=dict(_alloc_hooks(), carquet_delta_encode_int32=ehook, carquet_buffer_append=ahook), single=True, max_forks=8, budget=2000000, inline_depth=4)
-                done += 1
-                lab = "strings %s" % [bytes(s_).decode() for s_ in strs[:6]]
-                if bad is not None:
-                    continue
-                if ret != 0:
-                    bad = "%s: returns %r" % (lab, ret)
-                    continue
-                if len(seen) != 2 or any(v is None or len(v) != len(strs) or any(not isinstance(x, int) for x in v) for v, _ in seen):
-                    bad = "%s: the DELTA encoder is called %d time(s) with %r" % (lab, len(seen), [v for v, _ in seen])
-                    continue
-                pr, sf = seen[0][0], seen[1][0]
-                app = [x for x in app if x[1] != 0]
-                if len(app) < 2 or [(x[1], x[2]) for x in app[:2]] != [(13, 1), (15, 2)] or any(not (isinstance(x[0], Ptr) and isinstance(sb, Ptr) and x[0].base == sb.base and x[0].off == sb.off)
-                                                                                               for x, (_, sb) in zip(app[:2], seen)):
-                    bad = "%s: the output does not start with the prefix-lengths block followed by the suffix-lengths block (appends %s)" % (lab, [(repr(x[0])[:24], x[1]) for x in app[:3]])
-                    continue
-                body = []
-                for p, ln, _ in app[2:]:
-                    if not (isinstance(p, Ptr) and p.base == "str" and isinstance(p.off, int) and isinstance(ln, int)):
-                        raise sem.Inconclusive("appends %r, %r" % (p, ln))
-                    body += [heap0.get(("str", p.off + j)) for j in range(ln)]
-                out, prev, off = [], [], 0
-                for p, s_ in zip(pr, sf):
-                    if p < 0 or s_ < 0 or p > len(prev) or off + s_ > len(body):
-                        out = None
-                        break
-                    cur = prev[:p] + body[off:off + s_]
-                    off += s_
-                    out.append(cur)
-                    prev = cur
-                if out is None or out != strs or off != len(body):
-                    k = next((i for i, (x, y) in enumerate(zip(out or [], strs)) if x != y), None)
-                    bad = "%s: prefix lengths %s, suffix lengths %s and %d suffix bytes read back as %s" % (
-                        lab, pr[:8], sf[:8], len(body), "no valid stream" if out is None else ("the strings plus %d stray bytes" % (len(body) - off) if k is None else
-                                                                                          "value %d = %r" % (k, bytes(x for x in out[k] if isinstance(x, int)))))
-        except (sem.Inconclusive, KeyError) as ex:
-            if bad:
-                ctx.ob(rule, key, P.where(enc.body), what, False, bad)
-            else:
-                ctx.inconclusive(rule, key, P.where(enc.body), what, "%s: %s" % (type(ex).__name__, ex))
-                done = 0
-        else:
-            ctx.ob(rule, key, P.where(enc.body), what + " (%d sequences)" % done, bad is None, bad or "")
-        n += done
+        what = ("what carquet_delta_strings_encode appends to a buffer that already holds bytes is, read by the specification, the prefix-lengths block, the "
+                "suffix-lengths block and the suffix bytes of strings that reconstruct to the input - and the bytes already there are untouched")
+        n += _encoder_by_spec(ctx, enc, key, what, rule, _string_cases(), "strings")
     return n
 
 
+def _encoder_by_spec(ctx, enc, key, what, rule, cases, kind):
+    """Run a byte-array encoder as written (real output buffer that already holds PREV_PAGE, real inner DELTA coder, allocator
+    hooked) and read what it appended with decoders written from the specification."""
+    P = ctx.P
+    bo = sem.field_offsets(P, "carquet_buffer")
+    bad, done = None, 0
+    try:
+        for strs in cases:
+            heap0, items, o = {}, [], 0
+            for st in strs:
+                items.append((o, len(st)))
+                for j, c in enumerate(st):
+                    heap0[("str", o + j)] = c
+                o += len(st) + 5
+            heap0.update(_ba_heap("vals", items))
+            heap0.update({("ob", i): 0xFF for i in range(1024)})
+            heap0.update({("ob", i): b for i, b in enumerate(PREV_PAGE)})
+            heap0.update({("buf", bo["data"]): Ptr("ob", 0, 1), ("buf", bo["size"]): len(PREV_PAGE), ("buf", bo["capacity"]): 1 << 20})
+            ret, ev, heap = sem.run(P, enc, [Ptr("vals", 0, 16), len(strs), Ptr("buf", 0, 1)], heap0=heap0, hooks=_alloc_hooks(), single=True,
+                                    max_forks=8, budget=6000000, inline_depth=9)
+            size = heap.get(("buf", bo["size"]))
+            lab = "%d values of lengths %s" % (len(strs), [len(s_) for s_ in strs][:9])
+            if ret != 0 or not isinstance(size, int):
+                raise sem.Inconclusive("%s: returns %r with buffer size %r" % (lab, ret, size))
+            bs = _flatten(heap, "ob", size)
+            zs = set()
+            for zb, zl, zh in heap.get(("\0zeroed", 0), ()):
+                if zb == "ob":
+                    zs |= set(range(zl, zh))
+            bs = [0 if (b is None and i in zs) else b for i, b in enumerate(bs)]
+            done += 1
+            if bad is not None:
+                continue
+            if bs[:len(PREV_PAGE)] != PREV_PAGE:
+                bad = "%s: the %d bytes the buffer already held are now %s" % (lab, len(PREV_PAGE), bytes(b or 0 for b in bs[:len(PREV_PAGE)]).hex())
+                continue
+            bs = bs[len(PREV_PAGE):]
+            if any(b is None for b in bs):
+                raise sem.Inconclusive("%s: some of the %d appended bytes are not known" % (lab, len(bs)))
+            why = []
+            first = spec_decode_delta(bs, 32, why)
+            if first is None or len(first[0]) != len(strs):
+                bad = "%s: what was appended does not start with a DELTA_BINARY_PACKED block of %d lengths (%s...)" % (lab, len(strs), bytes(bs[:16]).hex())
+                continue
+            if kind == "length":
+                lens, used = first
+                body = bs[used:]
+                out, off = [], 0
+                for l in lens:
+                    out.append(body[off:off + l] if l >= 0 else None)
+                    off += max(l, 0)
+                if out != [list(s_) for s_ in strs] or off != len(body):
+                    bad = "%s: the lengths block reads %s and %d bytes follow: not the values" % (lab, lens[:9], len(body))
+            else:
+                pr, used = first
+                second = spec_decode_delta(bs[used:], 32, why)
+                if second is None or len(second[0]) != len(strs):
+                    bad = "%s: no DELTA_BINARY_PACKED block of %d suffix lengths follows the prefix lengths" % (lab, len(strs))
+                    continue
+                sf, used2 = second
+                body = bs[used + used2:]
+                out, prev, off = [], [], 0
+                for p_, s_ in zip(pr, sf):
+                    if p_ < 0 or s_ < 0 or p_ > len(prev) or off + s_ > len(body):
+                        out = None
+                        break
+                    cur = prev[:p_] + body[off:off + s_]
+                    off += s_
+                    out.append(cur)
+                    prev = cur
+                if out is None or out != [list(s_) for s_ in strs] or off != len(body):
+                    bad = "%s: prefix lengths %s, suffix lengths %s and %d suffix bytes do not reconstruct the strings" % (lab, pr[:8], sf[:8], len(body))
+    except (sem.Inconclusive, KeyError) as ex:
+        if bad:
+            ctx.ob(rule, key, P.where(enc.body), what, False, bad)
+            return done
+        ctx.inconclusive(rule, key, P.where(enc.body), what, "%s: %s" % (type(ex).__name__, ex))
+        return 0
+    ctx.ob(rule, key, P.where(enc.body), what + " (%d value lists)" % done, bad is None, bad or "")
+    return done
+
+
 PL = "src/encoding/plain.c"
+PREV_PAGE = [0xA1, 0xA2, 0xA3, 0xA4, 0xA5]      # what an output buffer already holds when an encoder is asked to append
 
 
 def _flatten(heap, base, n):
@@ -1221,7 +1191,9 @@ def check_plain(ctx, rule="R42.plain", encoders=True, decoders=True):
     def buf0():
         # a recycled buffer: whatever the previous page left behind is still there (the bytes an encoder emits may not depend on it)
         h = {("ob", i): 0xFF for i in range(1024)}
-        h.update({("buf", bo["data"]): Ptr("ob", 0, 1), ("buf", bo["size"]): 0, ("buf", bo["capacity"]): 1 << 20})
+        for i, b in enumerate(PREV_PAGE):
+            h[("ob", i)] = b            # the buffer already holds the end of an earlier page: encoders append
+        h.update({("buf", bo["data"]): Ptr("ob", 0, 1), ("buf", bo["size"]): len(PREV_PAGE), ("buf", bo["capacity"]): 1 << 20})
         return h
     fixed = (("int32", 4), ("int64", 8), ("float", 4), ("double", 8), ("int96", 12))
     # ---- encoders
@@ -1281,6 +1253,11 @@ def check_plain(ctx, rule="R42.plain", encoders=True, decoders=True):
                     if zb == "ob":
                         zs |= set(range(zl, zh))
                 got = [0 if (b is None and i in zs) else b for i, b in enumerate(got)]
+                if bad is None and got[:len(PREV_PAGE)] != PREV_PAGE:
+                    bad = "%s: the %d bytes the buffer already held are now %s (size %d)" % (lab, len(PREV_PAGE), bytes(b or 0 for b in got[:len(PREV_PAGE)]).hex(), size)
+                    continue
+                got = got[len(PREV_PAGE):]
+                size -= len(PREV_PAGE)
                 if size == len(exp) and any(b is None for b in got):
                     raise sem.Inconclusive("%s: some appended bytes are not known" % lab)
                 if got != exp:
@@ -1502,7 +1479,8 @@ def check_strings_chain(ctx, rule="R42.strings-chain"):
                     o += len(st) + 5
                 heap0.update(_ba_heap("vals", items))
                 heap0.update({("ob", i): 0xFF for i in range(1024)})
-                heap0.update({("buf", bo["data"]): Ptr("ob", 0, 1), ("buf", bo["size"]): 0, ("buf", bo["capacity"]): 1 << 20})
+                heap0.update({("ob", i): b for i, b in enumerate(PREV_PAGE)})
+                heap0.update({("buf", bo["data"]): Ptr("ob", 0, 1), ("buf", bo["size"]): len(PREV_PAGE), ("buf", bo["capacity"]): 1 << 20})
                 ret, ev, heap = sem.run(P, enc, [Ptr("vals", 0, 16), len(strs), Ptr("buf", 0, 1)], heap0=heap0, hooks=_alloc_hooks(), single=True,
                                         max_forks=8, budget=6000000, inline_depth=8)
                 size = heap.get(("buf", bo["size"]))
@@ -1515,6 +1493,12 @@ def check_strings_chain(ctx, rule="R42.strings-chain"):
                     if zb == "ob":
                         zs |= set(range(zl, zh))
                 bs = [0 if (b is None and i in zs) else b for i, b in enumerate(bs)]
+                if bs[:len(PREV_PAGE)] != PREV_PAGE:
+                    done += 1
+                    bad = bad or "%s: the %d bytes the buffer already held are now %s" % (lab, len(PREV_PAGE), bytes(b or 0 for b in bs[:len(PREV_PAGE)]).hex())
+                    continue
+                bs = bs[len(PREV_PAGE):]
+                size -= len(PREV_PAGE)
                 if any(b is None for b in bs):
                     raise sem.Inconclusive("%s: some of the %d appended bytes are not known" % (lab, size))
                 h1 = {("in", i): b for i, b in enumerate(bs)}
@@ -1599,8 +1583,9 @@ def check_plain_chain(ctx, rule="R42.plain-chain"):
         try:
             for _, esz, h, eargs, dargs, cnt, (kind, want) in cs:
                 hh = {("ob", i): 0xFF for i in range(1024)}
+                hh.update({("ob", i): b for i, b in enumerate(PREV_PAGE)})
                 hh.update(h)
-                hh.update({("buf", bo["data"]): Ptr("ob", 0, 1), ("buf", bo["size"]): 0, ("buf", bo["capacity"]): 1 << 20})
+                hh.update({("buf", bo["data"]): Ptr("ob", 0, 1), ("buf", bo["size"]): len(PREV_PAGE), ("buf", bo["capacity"]): 1 << 20})
                 ret, ev, heap = sem.run(P, enc, [Ptr("val", 0, esz)] + eargs + [Ptr("buf", 0, 1)], heap0=hh, hooks={}, single=True, max_forks=8, budget=3000000, inline_depth=6)
                 size = heap.get(("buf", bo["size"]))
                 if ret != 0 or not isinstance(size, int):
@@ -1611,6 +1596,12 @@ def check_plain_chain(ctx, rule="R42.plain-chain"):
                     if zb == "ob":
                         zs |= set(range(zl, zh))
                 bs = [0 if (b is None and i in zs) else b for i, b in enumerate(bs)]
+                if bs[:len(PREV_PAGE)] != PREV_PAGE:
+                    done += 1
+                    bad = bad or "the %d bytes the buffer already held are now %s" % (len(PREV_PAGE), bytes(b or 0 for b in bs[:len(PREV_PAGE)]).hex())
+                    continue
+                bs = bs[len(PREV_PAGE):]
+                size -= len(PREV_PAGE)
                 if any(b is None for b in bs):
                     raise sem.Inconclusive("some of the %d appended bytes are not known" % size)
                 h1 = {("in", i): b for i, b in enumerate(bs)}
